@@ -160,7 +160,8 @@ CLAIMED['C11'] = (
     'form), generate_content_key equals the published PlayReady key-seed algorithm (SHA-256 as an uninterpreted function of '
     'its input bytes, seed truncated to 30 bytes, length checks raise ValueError), generate_checksum is the first 8 bytes of '
     'AES-ECB(key, bytes_le(kid)); generate_wrmheader hands the template the default key id (bytes_le), default key, its checksum, '
-    'the per-key list (kid, checksum, algorithm) and the template of the header version; the pssh box (system id, version-1 key-id list, data) encodes and parses back identically '
+    'the per-key list (kid, checksum, algorithm) and the template of the header version; generate_pro frames the header as one '
+    'type-1 record whose length fields parse_pro reads back exactly (object length = header + 10); the pssh box (system id, version-1 key-id list, data) encodes and parses back identically '
     'for 0-3 key ids with and without data.',
     'Trusted: byte-string model (bit-vector lists), SHA-256 / AES-ECB uninterpreted; byte trace for the pssh box. Not covered: WRMHEADER XML and its '
     're-parse, PRO framing, ClearKey endpoint, ContentProtection elements (see evidence not_covered).',
